@@ -59,7 +59,12 @@ class Z3Alg:
 
     def index(self, r, pool=None):
         if isinstance(r, SRef):
-            return r._z
+            if pool is None or (len(pool) and pool[0] is r._pool[0]):
+                return r._z
+            for k, o in enumerate(pool):  # pool is a union of pools: translate the local index
+                if o is r._pool[0]:
+                    return r._z + k
+            raise HarnessError("SRef pool is not part of the given object list")
         if pool is None:
             raise HarnessError("index of a concrete object needs its pool")
         for j, o in enumerate(pool):
